@@ -47,6 +47,10 @@ def run_case(ctx, case):
 
     if case.get("kind") == "file":
         return run_file_case(ctx, case)
+    if case.get("kind") == "kinds":
+        from . import _kinds
+
+        return _kinds.run(ctx, case, "C10")
 
     p, cfgs = _rt.accepted_configs(ctx, case)
     kinds = set().union(*[G.kinds_in(s) for s in P.all_shapes(case["recipe"]).values()])
@@ -198,8 +202,10 @@ def plan(tier):
 def run_shard(spec, ctx):
     from hypothesis import strategies as st
 
+    from . import _kinds
+
     main = _rt.case_strategy(spec["depth"])
-    run_given(ctx, st.integers(0, 9).flatmap(lambda i: file_case_strategy() if i == 0 else main), body(ctx), spec["n"])
+    run_given(ctx, st.integers(0, 9).flatmap(lambda i: file_case_strategy() if i == 0 else _kinds.case_strategy() if i <= 2 else main), body(ctx), spec["n"])
 
 
 def health(tier, evaluations, nontrivial, classes):
